@@ -13,6 +13,10 @@
 //!   rmtrash              unlink every file in trash/ (what the verifier's clean-up does)
 //!   verify               run lsmtk::LsmVerifier::verify() in this process
 //!   reg                  allocation registry counters
+//!   conc R B S C         the concurrent stage: one thread writes R batches of B keys (own prefix and marker value per
+//!                        batch), S threads issue single puts all the time, C threads open scan cursors on the batch about
+//!                        to complete (and on the one completed last) and walk each three times; prints
+//!                        CONC scans=.. unstable=.. partial=.. missing=.. [first failures]; the registry is switched off
 //! The memtable thread is the real one (flush = verif_request_flush + verif_wait_flush);
 //! compaction is single-stepped through LsmTree::verif_compaction_step.
 use std::collections::{HashMap, HashSet};
@@ -165,6 +169,148 @@ fn ls(root: &str) -> String {
         parts.push(format!("{}={}", sub, names.join(",")));
     }
     parts.join(" ")
+}
+
+
+// ---- the concurrent stage
+fn walk_forward(c: &mut dyn Cursor) -> Result<Vec<(Vec<u8>, u64, Option<Vec<u8>>)>, String> {
+    let mut out = vec![];
+    c.seek_to_first().map_err(|e| err_class2(&e))?;
+    loop {
+        c.next().map_err(|e| err_class2(&e))?;
+        match c.key_value() {
+            Some(kv) => out.push((kv.key.to_vec(), kv.timestamp, kv.value.map(|v| v.to_vec()))),
+            None => break,
+        }
+    }
+    Ok(out)
+}
+
+fn walk_backward(c: &mut dyn Cursor) -> Result<Vec<(Vec<u8>, u64, Option<Vec<u8>>)>, String> {
+    let mut out = vec![];
+    c.seek_to_last().map_err(|e| err_class2(&e))?;
+    loop {
+        c.prev().map_err(|e| err_class2(&e))?;
+        match c.key_value() {
+            Some(kv) => out.push((kv.key.to_vec(), kv.timestamp, kv.value.map(|v| v.to_vec()))),
+            None => break,
+        }
+    }
+    out.reverse();
+    Ok(out)
+}
+
+fn conc_prefix(round: usize) -> String {
+    format!("A{round:04}-")
+}
+
+fn conc_stage(kvs: &'static KeyValueStore, rounds: usize, batch: usize, smalls: usize, scanners: usize) -> String {
+    use std::sync::atomic::AtomicBool;
+    use std::sync::Arc;
+    skipfree::verif::set_hook(None);
+    let completed = Arc::new(AtomicUsize::new(0));
+    let done = Arc::new(AtomicBool::new(false));
+    let failures: Arc<Mutex<Vec<String>>> = Arc::new(Mutex::new(vec![]));
+    let scans = Arc::new(AtomicUsize::new(0));
+    let unstable = Arc::new(AtomicUsize::new(0));
+    let partial = Arc::new(AtomicUsize::new(0));
+    let missing = Arc::new(AtomicUsize::new(0));
+    let errors = Arc::new(AtomicUsize::new(0));
+    let mut handles = vec![];
+    for t in 0..smalls {
+        let done = done.clone();
+        let errors = errors.clone();
+        handles.push(std::thread::spawn(move || {
+            let mut i = 0u64;
+            while !done.load(Ordering::Relaxed) {
+                if kvs.put(format!("B{t}-{i:012}").as_bytes(), b"small").is_err() {
+                    errors.fetch_add(1, Ordering::Relaxed);
+                    break;
+                }
+                i += 1;
+            }
+        }));
+    }
+    {
+        let completed = completed.clone();
+        let errors = errors.clone();
+        handles.push(std::thread::spawn(move || {
+            for round in 0..rounds {
+                let mut wb = WriteBatch::with_capacity(batch);
+                let p = conc_prefix(round);
+                let marker = format!("m{round}");
+                for i in 0..batch {
+                    wb.put(format!("{p}{i:06}").as_bytes(), marker.as_bytes());
+                }
+                if kvs.write(wb).is_err() {
+                    errors.fetch_add(1, Ordering::Relaxed);
+                }
+                completed.fetch_add(1, Ordering::SeqCst);
+                std::thread::sleep(std::time::Duration::from_millis(2));
+            }
+        }));
+    }
+    let mut scan_handles = vec![];
+    for sid in 0..scanners {
+        let (completed, failures, scans, unstable, partial, missing, errors) =
+            (completed.clone(), failures.clone(), scans.clone(), unstable.clone(), partial.clone(), missing.clone(), errors.clone());
+        scan_handles.push(std::thread::spawn(move || {
+            let mut turn = 0usize;
+            loop {
+                let round = completed.load(Ordering::SeqCst);
+                if round >= rounds {
+                    break;
+                }
+                turn += 1;
+                // mostly the batch that is about to complete; now and then the one completed last
+                let (target, must_be_whole) = if turn % 8 == 0 && round > 0 { (round - 1, true) } else { (round, false) };
+                let lo = conc_prefix(target).into_bytes();
+                let mut hi = lo.clone();
+                hi.push(0xff);
+                let (lo, hi) = (Bound::Included(lo), Bound::Excluded(hi));
+                let mut cursor = match kvs.range_scan(&lo, &hi) {
+                    Ok(c) => c,
+                    Err(_) => { errors.fetch_add(1, Ordering::Relaxed); continue; }
+                };
+                let walks = if sid % 2 == 0 {
+                    [walk_backward(&mut cursor), walk_forward(&mut cursor), walk_backward(&mut cursor)]
+                } else {
+                    [walk_forward(&mut cursor), walk_backward(&mut cursor), walk_forward(&mut cursor)]
+                };
+                scans.fetch_add(1, Ordering::Relaxed);
+                let (w0, w1, w2) = match (&walks[0], &walks[1], &walks[2]) {
+                    (Ok(a), Ok(b), Ok(c)) => (a, b, c),
+                    _ => { errors.fetch_add(1, Ordering::Relaxed); continue; }
+                };
+                let marker = format!("m{target}").into_bytes();
+                let stable = w0 == w1 && w1 == w2;
+                let whole = |w: &Vec<(Vec<u8>, u64, Option<Vec<u8>>)>| {
+                    w.is_empty() || (w.len() == batch && w.iter().all(|e| e.2.as_deref() == Some(&marker[..])))
+                };
+                let all_whole = whole(w0) && whole(w1) && whole(w2);
+                let miss = must_be_whole && w0.is_empty();
+                if !stable { unstable.fetch_add(1, Ordering::Relaxed); }
+                if !all_whole { partial.fetch_add(1, Ordering::Relaxed); }
+                if miss { missing.fetch_add(1, Ordering::Relaxed); }
+                if !stable || !all_whole || miss {
+                    let mut f = failures.lock().unwrap();
+                    if f.len() < 4 {
+                        f.push(format!("batch{}:{}:{}/{}/{}of{}", target, if sid % 2 == 0 { "BFB" } else { "FBF" }, w0.len(), w1.len(), w2.len(), batch));
+                    }
+                }
+            }
+        }));
+    }
+    for h in scan_handles {
+        let _ = h.join();
+    }
+    done.store(true, Ordering::Relaxed);
+    for h in handles {
+        let _ = h.join();
+    }
+    let f = failures.lock().unwrap();
+    format!("CONC scans={} unstable={} partial={} missing={} errors={} rounds={} {}", scans.load(Ordering::Relaxed), unstable.load(Ordering::Relaxed),
+        partial.load(Ordering::Relaxed), missing.load(Ordering::Relaxed), errors.load(Ordering::Relaxed), completed.load(Ordering::SeqCst), f.join(" "))
 }
 
 fn main() {
@@ -320,6 +466,7 @@ fn main() {
                         Err(e) => format!("VERIFY err {}", err_class2(&e)),
                     },
                 },
+                "conc" => conc_stage(kvs, t[1].parse().unwrap(), t[2].parse().unwrap(), t[3].parse().unwrap(), t[4].parse().unwrap()),
                 "reg" => format!("REG allocs={} frees={} derefs={} bad={}", ALLOCS.load(Ordering::Relaxed), FREES.load(Ordering::Relaxed),
                     DEREFS.load(Ordering::Relaxed), BAD.load(Ordering::Relaxed)),
                 _ => format!("BADOP {}", t[0]),
